@@ -449,7 +449,7 @@ EDIT_KINDS = ["const", "xconst", "tconst", "tperm", "builtin", "sconst", "nested
               "hidden_target"]
 
 
-def apply_edit(rng, prog, kind=None):
+def apply_edit(rng, prog, kind=None, force_var=None):
     """Returns (new program, description) or None when the edit kind does not apply."""
     p = copy.deepcopy(prog)
     nodes = p["nodes"]
@@ -585,6 +585,8 @@ def apply_edit(rng, prog, kind=None):
     if kind in ("var_value", "var_mutate"):
         order = list(range(len(p["vars"])))
         rng.shuffle(order)
+        if force_var is not None:
+            order = [force_var]
         for j in order:
             v = p["vars"][j]
             if kind == "var_mutate" and v["type"] not in ("list", "dict"):
